@@ -9,6 +9,11 @@ from . import vloop
 from .replay import Recorder, ScenarioController, ensure_repo_on_path
 
 
+def _by_name(name: str) -> int:
+    # with the eager task factory a task runs before the harness has registered its id
+    return int(name[1:]) if name and name[0] == "t" and name[1:].isdigit() else -1
+
+
 def run_scenario(scn: dict, *, fast: bool = False, eager: bool = False) -> dict:
     """Execute one scenario; returns {"events": [...], "final": {...}, "flags": {...}}."""
     ensure_repo_on_path()
@@ -23,11 +28,13 @@ def run_scenario(scn: dict, *, fast: bool = False, eager: bool = False) -> dict:
         st = lock.statistics()
         owner = 0
         if st.owner is not None:
-            owner = state["ids"].get(st.owner.id, -1)
+            owner = state["ids"].get(st.owner.id) or _by_name(st.owner.name)
         return {"owner": owner, "waiting": st.tasks_waiting}
 
     def fire(act: dict) -> None:
         t = act["t"]
+        if state["tasks"][t].done():
+            return          # (drifted run) nothing to cancel any more
         rec.emit(ev="creq", t=t)
         if act["c"] == "cancel":
             state["scopes"][t].cancel()
